@@ -10,13 +10,19 @@ Open Scope list_scope.
 (* ------------------------------------------------------------------------- *)
 (* Specification                                                               *)
 (* ------------------------------------------------------------------------- *)
-(* the statement positions the specification walks through: (slot, is it a list slot) *)
+(* the positions the specification walks through: (slot, is it a list slot).  Statement positions:
+   FuncDef body, Compound, If, While, DoWhile, For, Switch, Case, Default; plus the three list nodes
+   BaseAnalysis iterates (ExprList, DeclList, ParamList), which in a parsed C file hold expressions and
+   declarations only -- never a loop -- so that on parse trees they contribute nothing. *)
 Definition thr (c : string) : list (string * bool) :=
   if String.eqb c "FuncDef" then [("body", false)]
   else if String.eqb c "Compound" then [("block_items", true)]
   else if String.eqb c "If" then [("iftrue", false); ("iffalse", false)]
   else if String.eqb c "While" || String.eqb c "DoWhile" || String.eqb c "For" || String.eqb c "Switch" then [("stmt", false)]
   else if String.eqb c "Case" || String.eqb c "Default" then [("stmts", true)]
+  else if String.eqb c "ExprList" then [("exprs", true)]
+  else if String.eqb c "DeclList" then [("decls", true)]
+  else if String.eqb c "ParamList" then [("params", true)]
   else [].
 
 Definition pfx (st : string * nat) (pn : path * node) : path * node := (st :: fst pn, snd pn).
@@ -29,7 +35,7 @@ Definition spec_step (c : string) (a : list (string * string)) (ks : list (strin
               if snd sm then concat (mapi (fun i x => map (pfx (s, i)) (ares x)) (akl aks s))
               else match ak1 aks s with Some x => map (pfx (s, 0)) (ares x) | None => [] end) (thr c).
 
-(* preorder (source order, any depth) through FuncDef body, Compound, If, While, DoWhile, For, Switch, Case, Default *)
+(* preorder (source order, any depth) *)
 Definition spec_pre (n : node) : list (path * node) := walk spec_step n.
 
 (* a while, a do-while, or a counted for *)
@@ -39,17 +45,8 @@ Definition loop_node (n : node) : bool :=
 
 Definition spec_loops (f : node) : list path := map fst (filter (fun pn => loop_node (snd pn)) (spec_pre f)).
 
-(* hypothesis of the partial theorem: every node of the traversal has a class NodeHandler lists (so
-   node_handler never falls through to FindLoops.handler), is not one of the three expression-list
-   classes BaseAnalysis also iterates, and is not a for-loop on which init_vars raises *)
-Definition plain (n : node) : bool :=
-  in_s (ncls n) NODEHANDLER_METHODS && negb (in_s (ncls n) ["DeclList"; "ExprList"; "ParamList"]) &&
-  negb (is_cls "For" n && match loop_compat n with LcErr => true | _ => false end).
-
-Definition plain_tree (f : node) : Prop := Forall (fun pn => plain (snd pn) = true) (spec_pre f).
-
 (* ------------------------------------------------------------------------- *)
-(* FindLoops = the specification on plain trees                                *)
+(* FindLoops = the specification                                               *)
 (* ------------------------------------------------------------------------- *)
 Lemma spec_pre_eq c a ks :
   spec_pre (Node c a ks) =
@@ -89,142 +86,139 @@ Proof.
   - inversion H; subst. apply Forall_app. split; [assumption | apply IHls; assumption].
 Qed.
 
-Lemma Forall_map_pfx (P : node -> Prop) st l :
-  Forall (fun pn => P (snd pn)) (map (pfx st) l) <-> Forall (fun pn => P (snd pn)) l.
-Proof. rewrite Forall_map. reflexivity. Qed.
+Lemma lraises_app a b : lraises (a ++ b) = lraises a || lraises b.
+Proof. unfold lraises. apply existsb_app. Qed.
+Lemma lraises_lpush pre l : lraises (map (lpush pre) l) = lraises l.
+Proof. induction l as [|[p|] l IH]; simpl; [reflexivity | exact IH | reflexivity]. Qed.
 
-Definition fl_ok (x : node) : Prop := plain_tree x -> fl_items x = map LLoop (spec_loops x).
+(* no exception below x => FindLoops on x is the specification on x *)
+Definition fl_ok (x : node) : Prop := lraises (fl_items x) = false -> fl_items x = map LLoop (spec_loops x).
 
-(* one single-slot child *)
+Definition fl_rec1 (ks : list (string * list node)) (s : string) : list litem :=
+  match ak1 (annk fl_step ks) s with Some x => map (lpush [(s, 0)]) (ares x) | None => [] end.
+
 Lemma rec1_spec c a ks s :
-  Forall (fun sk => Forall fl_ok (snd sk)) ks ->
-  Forall (fun pn => plain (snd pn) = true)
-         (match kid1 (Node c a ks) s with Some x => map (pfx (s, 0)) (spec_pre x) | None => [] end) ->
-  match ak1 (annk fl_step ks) s with Some x => map (lpush [(s, 0)]) (ares x) | None => [] end =
+  Forall (fun sk => Forall fl_ok (snd sk)) ks -> lraises (fl_rec1 ks s) = false ->
+  fl_rec1 ks s =
   map LLoop (map fst (filter lp (match kid1 (Node c a ks) s with Some x => map (pfx (s, 0)) (spec_pre x) | None => [] end))).
 Proof.
-  intros IH HP. rewrite (ak1_node fl_step c a ks s).
-  destruct (kid1 (Node c a ks) s) as [x|] eqn:E; simpl; [|reflexivity].
-  rewrite ares_annotate. rewrite loops_pfx.
+  intros IH Hr. unfold fl_rec1 in *. rewrite (ak1_node fl_step c a ks s) in *.
+  destruct (kid1 (Node c a ks) s) as [x|] eqn:E; simpl in *; [|reflexivity].
+  rewrite ares_annotate in *. rewrite loops_pfx. rewrite lraises_lpush in Hr.
   pose proof (Forall_kid1 fl_ok c a ks s x IH E) as Hx. unfold fl_ok in Hx.
-  fold (fl_items x). rewrite Hx; [reflexivity|].
-  unfold plain_tree. apply (Forall_map_pfx (fun n => plain n = true)) in HP. exact HP.
+  fold (fl_items x) in *. rewrite (Hx Hr). reflexivity.
 Qed.
 
-(* a list slot *)
 Lemma iter_spec c a ks s :
-  Forall (fun sk => Forall fl_ok (snd sk)) ks ->
-  Forall (fun pn => plain (snd pn) = true)
-         (concat (mapi (fun i x => map (pfx (s, i)) (spec_pre x)) (kidl (Node c a ks) s))) ->
+  Forall (fun sk => Forall fl_ok (snd sk)) ks -> lraises (fl_iter s (akl (annk fl_step ks) s)) = false ->
   fl_iter s (akl (annk fl_step ks) s) =
   map LLoop (map fst (filter lp (concat (mapi (fun i x => map (pfx (s, i)) (spec_pre x)) (kidl (Node c a ks) s))))).
 Proof.
-  intros IH HP. rewrite (akl_node fl_step c a ks s).
+  intros IH. rewrite (akl_node fl_step c a ks s).
   pose proof (Forall_kidl fl_ok c a ks s IH) as F. unfold fl_iter, mapi in *.
-  revert HP. generalize 0. induction (kidl (Node c a ks) s) as [|x l IHl]; intros k HP; simpl; [reflexivity|].
-  inversion F as [|? ? Fx Fl]; subst. simpl in HP. apply Forall_app in HP. destruct HP as [HPa HPb].
+  generalize 0. induction (kidl (Node c a ks) s) as [|x l IHl]; intros k Hr; simpl; [reflexivity|].
+  inversion F as [|? ? Fx Fl]; subst. simpl in Hr. rewrite lraises_app, ares_annotate, lraises_lpush in Hr.
+  apply orb_false_iff in Hr. destruct Hr as [Hr1 Hr2].
   rewrite filter_app, map_app, map_app. rewrite ares_annotate. f_equal.
-  - rewrite loops_pfx. fold (fl_items x). rewrite Fx; [reflexivity|].
-    apply (Forall_map_pfx (fun n => plain n = true)) in HPa. exact HPa.
+  - rewrite loops_pfx. fold (fl_items x) in *. rewrite (Fx Hr1). reflexivity.
   - apply IHl; assumption.
 Qed.
-
-Lemma in_nh_cases c : in_s c NODEHANDLER_METHODS = true -> In c NODEHANDLER_METHODS.
-Proof. apply in_s_In. Qed.
-
-Ltac str_neq := let H := fresh in intro H; discriminate H.
 
 Lemma fl_items_eq c a ks : fl_items (Node c a ks) = fl_step c a ks (annk fl_step ks).
 Proof. reflexivity. Qed.
 
-Lemma app_nil_r' {A} (l : list A) : l ++ [] = l. Proof. apply app_nil_r. Qed.
-
 Ltac thr_is c v :=
   change (thr c) with v in *; cbn [flat_map fst snd] in *; rewrite ?app_nil_r in *.
 
-Theorem find_loops_plain f : plain_tree f -> fl_items f = map LLoop (spec_loops f).
+(* classes that are neither walked through nor recorded *)
+Lemma fl_other c a ks aks :
+  c <> "FuncDef" -> c <> "Compound" -> c <> "If" -> c <> "While" -> c <> "DoWhile" -> c <> "For" -> c <> "Switch" ->
+  c <> "Case" -> c <> "Default" -> c <> "ExprList" -> c <> "DeclList" -> c <> "ParamList" -> c <> "FuncCall" ->
+  fl_step c a ks aks = [] /\ thr c = [] /\ loop_node (Node c a ks) = false.
 Proof.
-  induction f as [c a ks IH] using node_ind'. fold fl_ok in IH. intros HP.
-  unfold plain_tree in HP. rewrite spec_pre_eq in HP. inversion HP as [|? ? Hn Hrest]; subst. clear HP.
-  unfold spec_loops. rewrite spec_pre_eq. rewrite fl_items_eq. fold lp.
-  unfold plain in Hn. cbn [ncls snd] in Hn. apply andb_true_iff in Hn. destruct Hn as [Hn Hfor].
-  apply andb_true_iff in Hn. destruct Hn as [Hnh Hnl].
-  apply negb_true_iff in Hnl. apply in_nh_cases in Hnh.
-  assert (Hlc : c = "For" -> loop_compat (Node c a ks) <> LcErr).
-  { intros ->. apply negb_true_iff in Hfor. unfold is_cls in Hfor. cbn [ncls] in Hfor.
-    intro E. rewrite E in Hfor. discriminate. }
-  clear Hfor.
-  cbn [In NODEHANDLER_METHODS] in Hnh.
-  repeat match goal with H : _ \/ _ |- _ => destruct H as [H|H] end; try contradiction; subst c;
-    try discriminate Hnl.
-  all: cbn [filter].
-  (* 30 classes; the ones neither walked through nor loops first *)
-  all: try (change (fl_step _ a ks (annk fl_step ks)) with (@nil litem); reflexivity).
-  - (* Case *)
-    thr_is "Case" [("stmts", true)].
-    change (fl_step "Case" a ks (annk fl_step ks)) with (fl_iter "stmts" (akl (annk fl_step ks) "stmts")).
-    change (lp ([], Node "Case" a ks)) with false. cbv iota.
-    apply (iter_spec "Case" a ks "stmts" IH Hrest).
-  - (* Compound *)
-    thr_is "Compound" [("block_items", true)].
-    change (fl_step "Compound" a ks (annk fl_step ks)) with (fl_iter "block_items" (akl (annk fl_step ks) "block_items")).
-    change (lp ([], Node "Compound" a ks)) with false. cbv iota.
-    apply (iter_spec "Compound" a ks "block_items" IH Hrest).
-  - (* Default *)
-    thr_is "Default" [("stmts", true)].
-    change (fl_step "Default" a ks (annk fl_step ks)) with (fl_iter "stmts" (akl (annk fl_step ks) "stmts")).
-    change (lp ([], Node "Default" a ks)) with false. cbv iota.
-    apply (iter_spec "Default" a ks "stmts" IH Hrest).
-  - (* DoWhile *)
-    thr_is "DoWhile" [("stmt", false)].
-    change (fl_step "DoWhile" a ks (annk fl_step ks)) with
-        (LLoop [] :: match ak1 (annk fl_step ks) "stmt" with Some x => map (lpush [("stmt", 0)]) (ares x) | None => [] end).
+  intros N1 N2 N3 N4 N5 N6 N7 N8 N9 N10 N11 N12 N13.
+  apply String.eqb_neq in N1, N2, N3, N4, N5, N6, N7, N8, N9, N10, N11, N12, N13.
+  split; [|split].
+  - unfold fl_step. rewrite N13. unfold resolve, fl_handler.
+    change FINDLOOPS_METHODS with ["DoWhile"; "For"; "FuncDef"; "If"; "Switch"; "While"].
+    change BASE_METHODS with ["Case"; "Compound"; "DeclList"; "Default"; "ExprList"; "ParamList"].
+    change FINDLOOPS_HANDLER_CLASSES with ["While"; "DoWhile"; "For"].
+    unfold in_s at 1 2. cbn [existsb]. rewrite N1, N2, N3, N4, N5, N6, N7, N8, N9, N10, N11, N12. cbn [orb].
+    destruct (in_s c NODEHANDLER_METHODS); [reflexivity|]. unfold in_s. cbn [existsb]. rewrite N4, N5, N6. reflexivity.
+  - unfold thr. rewrite N1, N2, N3, N4, N5, N6, N7, N8, N9, N10, N11, N12. reflexivity.
+  - unfold loop_node, is_cls. cbn [ncls]. rewrite N4, N5, N6. reflexivity.
+Qed.
+
+Theorem find_loops_spec_items f : fl_ok f.
+Proof.
+  induction f as [c a ks IH] using node_ind'. fold fl_ok in IH. intros Hr.
+  unfold spec_loops. rewrite spec_pre_eq. rewrite fl_items_eq in *. fold lp. cbn [filter].
+  destruct (String.eqb_spec c "FuncDef") as [->|N1].
+  { thr_is "FuncDef" [("body", false)].
+    change (fl_step "FuncDef" a ks (annk fl_step ks)) with (fl_rec1 ks "body") in *.
+    change (lp ([], Node "FuncDef" a ks)) with false. cbv iota. apply (rec1_spec "FuncDef" a ks "body" IH Hr). }
+  destruct (String.eqb_spec c "Compound") as [->|N2].
+  { thr_is "Compound" [("block_items", true)].
+    change (fl_step "Compound" a ks (annk fl_step ks)) with (fl_iter "block_items" (akl (annk fl_step ks) "block_items")) in *.
+    change (lp ([], Node "Compound" a ks)) with false. cbv iota. apply (iter_spec "Compound" a ks "block_items" IH Hr). }
+  destruct (String.eqb_spec c "If") as [->|N3].
+  { thr_is "If" [("iftrue", false); ("iffalse", false)].
+    change (fl_step "If" a ks (annk fl_step ks)) with (fl_rec1 ks "iftrue" ++ fl_rec1 ks "iffalse") in *.
+    change (lp ([], Node "If" a ks)) with false. cbv iota.
+    rewrite lraises_app in Hr. apply orb_false_iff in Hr. destruct Hr as [H1 H2].
+    rewrite filter_app, map_app, map_app. f_equal;
+      [apply (rec1_spec "If" a ks "iftrue" IH H1) | apply (rec1_spec "If" a ks "iffalse" IH H2)]. }
+  destruct (String.eqb_spec c "While") as [->|N4].
+  { thr_is "While" [("stmt", false)].
+    change (fl_step "While" a ks (annk fl_step ks)) with (LLoop [] :: fl_rec1 ks "stmt") in *.
+    change (lp ([], Node "While" a ks)) with true. cbv iota. cbn [map fst]. f_equal.
+    apply (rec1_spec "While" a ks "stmt" IH Hr). }
+  destruct (String.eqb_spec c "DoWhile") as [->|N5].
+  { thr_is "DoWhile" [("stmt", false)].
+    change (fl_step "DoWhile" a ks (annk fl_step ks)) with (LLoop [] :: fl_rec1 ks "stmt") in *.
     change (lp ([], Node "DoWhile" a ks)) with true. cbv iota. cbn [map fst]. f_equal.
-    apply (rec1_spec "DoWhile" a ks "stmt" IH Hrest).
-  - (* For *)
-    thr_is "For" [("stmt", false)].
-    specialize (Hlc eq_refl).
+    apply (rec1_spec "DoWhile" a ks "stmt" IH Hr). }
+  destruct (String.eqb_spec c "For") as [->|N6].
+  { thr_is "For" [("stmt", false)].
     change (fl_step "For" a ks (annk fl_step ks)) with
         (match loop_compat (Node "For" a ks) with
          | LcErr => [LRaise]
-         | LcYes _ => LLoop [] :: match ak1 (annk fl_step ks) "stmt" with Some x => map (lpush [("stmt", 0)]) (ares x) | None => [] end
-         | LcNo => match ak1 (annk fl_step ks) "stmt" with Some x => map (lpush [("stmt", 0)]) (ares x) | None => [] end
-         end).
+         | LcYes _ => LLoop [] :: fl_rec1 ks "stmt"
+         | LcNo => fl_rec1 ks "stmt"
+         end) in *.
     change (lp ([], Node "For" a ks)) with (match loop_compat (Node "For" a ks) with LcYes _ => true | _ => false end).
-    destruct (loop_compat (Node "For" a ks)) eqn:E; [contradiction| |]; cbv iota.
-    + apply (rec1_spec "For" a ks "stmt" IH Hrest).
-    + cbn [map fst]. f_equal. apply (rec1_spec "For" a ks "stmt" IH Hrest).
-  - (* FuncCall *)
-    change (fl_step "FuncCall" a ks (annk fl_step ks)) with (if fcall_special (Node "FuncCall" a ks) then @nil litem else []).
-    destruct (fcall_special (Node "FuncCall" a ks)); reflexivity.
-  - (* FuncDef *)
-    thr_is "FuncDef" [("body", false)].
-    change (fl_step "FuncDef" a ks (annk fl_step ks)) with
-        (match ak1 (annk fl_step ks) "body" with Some x => map (lpush [("body", 0)]) (ares x) | None => [] end).
-    change (lp ([], Node "FuncDef" a ks)) with false. cbv iota.
-    apply (rec1_spec "FuncDef" a ks "body" IH Hrest).
-  - (* If *)
-    thr_is "If" [("iftrue", false); ("iffalse", false)].
-    apply Forall_app in Hrest. destruct Hrest as [H1 H2].
-    change (fl_step "If" a ks (annk fl_step ks)) with
-        (match ak1 (annk fl_step ks) "iftrue" with Some x => map (lpush [("iftrue", 0)]) (ares x) | None => [] end ++
-         match ak1 (annk fl_step ks) "iffalse" with Some x => map (lpush [("iffalse", 0)]) (ares x) | None => [] end).
-    change (lp ([], Node "If" a ks)) with false. cbv iota.
-    rewrite filter_app, map_app, map_app. f_equal.
-    + apply (rec1_spec "If" a ks "iftrue" IH H1).
-    + apply (rec1_spec "If" a ks "iffalse" IH H2).
-  - (* Switch *)
-    thr_is "Switch" [("stmt", false)].
-    change (fl_step "Switch" a ks (annk fl_step ks)) with
-        (match ak1 (annk fl_step ks) "stmt" with Some x => map (lpush [("stmt", 0)]) (ares x) | None => [] end).
-    change (lp ([], Node "Switch" a ks)) with false. cbv iota.
-    apply (rec1_spec "Switch" a ks "stmt" IH Hrest).
-  - (* While *)
-    thr_is "While" [("stmt", false)].
-    change (fl_step "While" a ks (annk fl_step ks)) with
-        (LLoop [] :: match ak1 (annk fl_step ks) "stmt" with Some x => map (lpush [("stmt", 0)]) (ares x) | None => [] end).
-    change (lp ([], Node "While" a ks)) with true. cbv iota. cbn [map fst]. f_equal.
-    apply (rec1_spec "While" a ks "stmt" IH Hrest).
+    destruct (loop_compat (Node "For" a ks)) eqn:E; [discriminate| |]; cbv iota.
+    - apply (rec1_spec "For" a ks "stmt" IH Hr).
+    - cbn [map fst]. f_equal. apply (rec1_spec "For" a ks "stmt" IH Hr). }
+  destruct (String.eqb_spec c "Switch") as [->|N7].
+  { thr_is "Switch" [("stmt", false)].
+    change (fl_step "Switch" a ks (annk fl_step ks)) with (fl_rec1 ks "stmt") in *.
+    change (lp ([], Node "Switch" a ks)) with false. cbv iota. apply (rec1_spec "Switch" a ks "stmt" IH Hr). }
+  destruct (String.eqb_spec c "Case") as [->|N8].
+  { thr_is "Case" [("stmts", true)].
+    change (fl_step "Case" a ks (annk fl_step ks)) with (fl_iter "stmts" (akl (annk fl_step ks) "stmts")) in *.
+    change (lp ([], Node "Case" a ks)) with false. cbv iota. apply (iter_spec "Case" a ks "stmts" IH Hr). }
+  destruct (String.eqb_spec c "Default") as [->|N9].
+  { thr_is "Default" [("stmts", true)].
+    change (fl_step "Default" a ks (annk fl_step ks)) with (fl_iter "stmts" (akl (annk fl_step ks) "stmts")) in *.
+    change (lp ([], Node "Default" a ks)) with false. cbv iota. apply (iter_spec "Default" a ks "stmts" IH Hr). }
+  destruct (String.eqb_spec c "ExprList") as [->|N10].
+  { thr_is "ExprList" [("exprs", true)].
+    change (fl_step "ExprList" a ks (annk fl_step ks)) with (fl_iter "exprs" (akl (annk fl_step ks) "exprs")) in *.
+    change (lp ([], Node "ExprList" a ks)) with false. cbv iota. apply (iter_spec "ExprList" a ks "exprs" IH Hr). }
+  destruct (String.eqb_spec c "DeclList") as [->|N11].
+  { thr_is "DeclList" [("decls", true)].
+    change (fl_step "DeclList" a ks (annk fl_step ks)) with (fl_iter "decls" (akl (annk fl_step ks) "decls")) in *.
+    change (lp ([], Node "DeclList" a ks)) with false. cbv iota. apply (iter_spec "DeclList" a ks "decls" IH Hr). }
+  destruct (String.eqb_spec c "ParamList") as [->|N12].
+  { thr_is "ParamList" [("params", true)].
+    change (fl_step "ParamList" a ks (annk fl_step ks)) with (fl_iter "params" (akl (annk fl_step ks) "params")) in *.
+    change (lp ([], Node "ParamList" a ks)) with false. cbv iota. apply (iter_spec "ParamList" a ks "params" IH Hr). }
+  destruct (String.eqb_spec c "FuncCall") as [->|N13].
+  { change (fl_step "FuncCall" a ks (annk fl_step ks)) with (if fcall_special (Node "FuncCall" a ks) then @nil litem else []).
+    destruct (fcall_special (Node "FuncCall" a ks)); reflexivity. }
+  destruct (fl_other c a ks (annk fl_step ks)) as [E1 [E2 E3]]; try assumption.
+  rewrite E1, E2. unfold lp. cbn [snd]. rewrite E3. reflexivity.
 Qed.
 
 Lemma lraises_map_LLoop l : lraises (map LLoop l) = false.
@@ -232,14 +226,15 @@ Proof. induction l; simpl; [reflexivity | exact IHl]. Qed.
 Lemma lpaths_map_LLoop l : lpaths (map LLoop l) = l.
 Proof. induction l; simpl; [reflexivity | f_equal; exact IHl]. Qed.
 
-Theorem find_loops_partial f : plain_tree f -> find_loops f = Some (spec_loops f).
+(* whenever FindLoops returns (the only exception left is the variable walker raising on a FuncDef
+   without a declaration, which no parse tree has), it returns the specification's loops *)
+Theorem find_loops_spec f l : find_loops f = Some l -> l = spec_loops f.
 Proof.
-  intros H. unfold find_loops. rewrite (find_loops_plain f H), lraises_map_LLoop, lpaths_map_LLoop. reflexivity.
+  unfold find_loops. destruct (lraises (fl_items f)) eqn:Hr; [discriminate|]. intros H. inversion H; subst.
+  rewrite (find_loops_spec_items f Hr). apply lpaths_map_LLoop.
 Qed.
 
-(* ------------------------------------------------------------------------- *)
-(* the full statement is false: a block-level typedef is recorded as a loop (D12) *)
-(* ------------------------------------------------------------------------- *)
+(* regression (D12, fixed by c343838): a block-level typedef is no longer recorded *)
 Definition int_type : node := Node "TypeDecl" [("declname", "T"); ("quals", ""); ("align", "")] [("type", [Node "IdentifierType" [("names", "int")] []])].
 Definition d12_func : node :=
   Node "FuncDef" []
@@ -250,12 +245,10 @@ Definition d12_func : node :=
      ("param_decls", []);
      ("body", [Node "Compound" [] [("block_items", [Node "Typedef" [("name", "T"); ("quals", ""); ("storage", "typedef")] [("type", [int_type])]])]])].
 
-Lemma find_loops_refuted :
-  exists f, wf_pyc f = true /\ is_func f = true /\ spec_loops f = [] /\
-            find_loops f = Some [[("body", 0); ("block_items", 0)]].
-Proof. exists d12_func. vm_compute. repeat split. Qed.
+Example find_loops_d12 : wf_pyc d12_func = true /\ is_func d12_func = true /\ find_loops d12_func = Some [] /\ vars_of [d12_func] = Some [].
+Proof. vm_compute. repeat split. Qed.
 
-(* non-vacuity of the partial theorem: a nest of loops meets [plain_tree] and has loops *)
+(* a nest of loops: in branches, blocks, other loops *)
 Definition ex_id (x : string) : node := Node "ID" [("name", x)] [].
 Definition ex_lt (x y : string) : node := Node "BinaryOp" [("op", "<")] [("left", [ex_id x]); ("right", [ex_id y])].
 Definition ex_asg (x y z : string) : node :=
@@ -274,17 +267,11 @@ Definition ex_nest : node :=
   ex_func (ex_block [ex_for "i" "n" (ex_block [ex_while (ex_lt "x" "y") (ex_block [ex_asg "x" "x" "y"])]);
                      Node "If" [] [("cond", [ex_lt "x" "y"]); ("iftrue", [ex_while (ex_lt "y" "n") (ex_asg "y" "y" "x")]); ("iffalse", [])]]).
 
-Example plain_nonvacuous :
-  Forall (fun pn => plain (snd pn) = true) (spec_pre ex_nest) /\
-  spec_loops ex_nest = [[("body", 0); ("block_items", 0)];
-                        [("body", 0); ("block_items", 0); ("stmt", 0); ("block_items", 0)];
-                        [("body", 0); ("block_items", 1); ("iftrue", 0)]].
-Proof.
-  split; [|vm_compute; reflexivity].
-  apply Forall_forall. intros pn Hin.
-  assert (H : forallb (fun pn => plain (snd pn)) (spec_pre ex_nest) = true) by (vm_compute; reflexivity).
-  rewrite forallb_forall in H. apply H. exact Hin.
-Qed.
+Example find_loops_example :
+  find_loops ex_nest = Some [[("body", 0); ("block_items", 0)];
+                             [("body", 0); ("block_items", 0); ("stmt", 0); ("block_items", 0)];
+                             [("body", 0); ("block_items", 1); ("iftrue", 0)]].
+Proof. vm_compute. reflexivity. Qed.
 
 (* ------------------------------------------------------------------------- *)
 (* statistics                                                                  *)
@@ -320,14 +307,15 @@ Proof.
     simpl. exact Hp.
 Qed.
 
-Lemma loops_of_partial f : plain_tree f -> loops_of f = Some (spec_loop_nodes f).
+Lemma loops_of_spec f l : loops_of f = Some l -> l = spec_loop_nodes f.
 Proof.
-  intros H. unfold loops_of. rewrite (find_loops_partial f H). f_equal.
+  unfold loops_of. destruct (find_loops f) as [ps|] eqn:E; [|discriminate]. intros H. inversion H; subst. clear H.
+  rewrite (find_loops_spec f ps E).
   unfold spec_loops, spec_loop_nodes.
   pose proof (spec_pre_node_at f) as F.
   induction (spec_pre f) as [|[p n] l IHl]; simpl; [reflexivity|].
-  inversion F; subst. unfold lp at 1 3. simpl. destruct (loop_node n); simpl.
-  - simpl in H2. rewrite H2. simpl. f_equal. apply IHl. assumption.
+  inversion F as [|? ? Fx Fl]; subst. unfold lp at 1 3. simpl. destruct (loop_node n); simpl.
+  - simpl in Fx. rewrite Fx. simpl. f_equal. apply IHl. assumption.
   - apply IHl. assumption.
 Qed.
 
@@ -411,20 +399,15 @@ Proof.
     simpl. rewrite Hm. reflexivity.
 Qed.
 
-Theorem counts_partial ast cnt :
-  Forall plain_tree (filter is_func (kidl ast "ext")) -> take_counts ast = Some cnt -> count_spec ast cnt.
+Theorem counts_spec ast cnt : take_counts ast = Some cnt -> count_spec ast cnt.
 Proof.
-  intros HP. unfold take_counts, funcs. set (fs := filter is_func (kidl ast "ext")) in *.
-  assert (HL : map loops_of fs = map (fun f => Some (spec_loop_nodes f)) fs).
-  { induction fs as [|f l IHl]; simpl; [reflexivity|]. inversion HP; subst. rewrite loops_of_partial by assumption. f_equal. apply IHl. assumption. }
-  rewrite HL.
-  assert (HA : forallb (fun o : option (list node) => match o with Some _ => true | None => false end)
-                       (map (fun f => Some (spec_loop_nodes f)) fs) = true).
-  { clear. induction fs; simpl; [reflexivity | assumption]. }
-  rewrite HA.
-  assert (HF : flat_map (fun o : option (list node) => match o with Some l => l | None => [] end)
-                        (map (fun f => Some (spec_loop_nodes f)) fs) = flat_map spec_loop_nodes fs).
-  { clear. induction fs; simpl; [reflexivity | f_equal; assumption]. }
+  unfold take_counts, funcs. set (fs := filter is_func (kidl ast "ext")) in *.
+  destruct (forallb (fun o : option (list node) => match o with Some _ => true | None => false end) (map loops_of fs)) eqn:HA; [|discriminate].
+  assert (HF : flat_map (fun o : option (list node) => match o with Some l => l | None => [] end) (map loops_of fs)
+               = flat_map spec_loop_nodes fs).
+  { clear - HA. induction fs as [|f l IHl]; simpl in *; [reflexivity|].
+    apply andb_true_iff in HA. destruct HA as [H1 H2]. destruct (loops_of f) as [lf|] eqn:E; [|discriminate].
+    rewrite (loops_of_spec f lf E). f_equal. apply IHl. exact H2. }
   rewrite HF.
   destruct (osum (map (fun f => olen (vars_of [f])) fs)) as [fv|] eqn:E1; [|discriminate].
   destruct (osum (map (fun l => olen (vars_of [l])) (flat_map spec_loop_nodes fs))) as [lv|] eqn:E2; [|discriminate].
